@@ -386,6 +386,7 @@ Qed.
 Lemma row0_spec : forall t1, vp_row0 RN t1 = rowof [] t1.
 Proof.
   intros t1. unfold vp_row0, rowof. cbn [rev].
+  change (seq 0 (S (length t1))) with (seq (length (@nil R)) (S (length t1))).
   rewrite <- (prefixes_lengths t1 []). rewrite map_map. apply map_ext. intros s.
   rn_simpl. rewrite <- INR_IZR_INZ, D_nil_l, rev_length. reflexivity.
 Qed.
